@@ -1,6 +1,7 @@
 package ardopsim
 
 import (
+	"time"
 	"fmt"
 	"net"
 	"strings"
@@ -29,6 +30,13 @@ type Config struct {
 	DialScript []string // control lines sent after the ARQCALL echo, e.g. NEWSTATE ISS, PTT TRUE, CONNECTED X 500
 	DiscScript []string // control lines sent between the DISCONNECT echo and NEWSTATE DISC / DISCONNECTED
 	HoldDisc   bool     // answer DISCONNECT only when ReleaseDisconnect is called
+	// End of a session: LateARQ are ARQ-typed data frames the TNC still delivers right after NEWSTATE DISC (the
+	// peer's last frame, or the non-ARQ data that ARDOPc is known to send as ARQ frames while disconnected);
+	// NoDisconnected: the TNC reports the end with NEWSTATE DISC only.
+	LateARQ        [][]byte
+	NoDisconnected bool
+	// SlowWriteUS (serial): every host write call takes that many microseconds (transmission time)
+	SlowWriteUS int
 }
 
 // Sim is one simulated TNC attached to one host.
@@ -70,6 +78,7 @@ func newSim(tcp bool, cfg Config) *Sim {
 func NewSerial(cfg Config) *Sim {
 	s := newSim(false, cfg)
 	s.p = newPipe(cfg.Sched)
+	s.p.writeTime = time.Duration(cfg.SlowWriteUS) * time.Microsecond
 	s.wg.Add(2)
 	go func() { defer s.wg.Done(); s.serveSerial() }()
 	go func() { defer s.wg.Done(); <-s.p.hostGone; s.signalHostClosed() }()
@@ -220,7 +229,13 @@ func (s *Sim) finishDisconnect() {
 		s.sendCtrl(l)
 	}
 	s.sendCtrl("NEWSTATE DISC")
-	s.sendCtrl("DISCONNECTED")
+	for _, p := range s.cfg.LateARQ {
+		s.rec(Record{Dir: "tnc", Kind: "data", Text: "ARQ", Data: p})
+		s.out(true, DataFrame(s.TCP, "ARQ", p))
+	}
+	if !s.cfg.NoDisconnected {
+		s.sendCtrl("DISCONNECTED")
+	}
 }
 
 // RemoteDisconnect is the remote station ending the session: NEWSTATE DISC, DISCONNECTED.
